@@ -134,7 +134,8 @@ def oracle_violation(c, ia):
 
 
 OPT_VALUES = ['0', '3', '12', '-1', '-0', 'x', '1.5', '', ' 2', '+2', '1_0', '0x10', '1e3', 'None', '2 ', '--1']
-ISTOP_VALUES = ['sat', 'SAT', 'Sat', 'unsat', 'UNSAT', 'unknown', 'Unknown', 'foo', '', 'satisfiable', 'sat ']
+ISTOP_VALUES = ['sat', 'SAT', 'Sat', 'unsat', 'UNSAT', 'unknown', 'Unknown', 'foo', '', 'satisfiable', 'sat ', 'un', 'known', 't', 'nsa', 'sat|unsat', 'S', 'AT',
+                'SAT|UNSAT|UNKNOWN', 'u', '|', 'UNSA', 'NOWN']
 
 
 def option_cases(ctx):
@@ -173,6 +174,99 @@ def option_cases(ctx):
     return n, bad
 
 
+CLI_PROGRAMS = [
+    # (text, result of horizon k as a function of k); the number of answer sets per horizon is constant (<= 2), so that a loop that
+    # wrongly goes on does not explode
+    ("#program initial.\ns.\n{ x }.\n#program dynamic.\nt :- 's.\nt :- 't.\nu :- 't.\n#program final.\n:- not u.\n", lambda k: 'S' if k >= 2 else 'U'),
+    ("#program initial.\n{ x }.\n#program dynamic.\nz :- 'x.\n", lambda k: 'S'),
+    ("#program always.\ny.\n:- y.\n", lambda k: 'U'),
+    ("#program always.\n{ x }.\n#program initial.\n:- not x.\n#program dynamic.\n:- x, 'x.\n:- not x, not 'x.\n#program final.\n:- x, not &initial.\n", lambda k: 'S' if k % 2 == 1 or k == 0 else 'U'),
+]
+
+
+def cli_loop_cases(ctx):
+    """the command line tool under option settings vs imain in-process with the same options: number of solve calls, results and the
+    answer sets of every call (all of them enumerated), and the closed-form reading of the property on the observed calls"""
+    repo = os.environ.get('TELINGO_REPO', '/repo')
+    env = dict(os.environ, PYTHONPATH=repo, PYTHONHASHSEED='0')
+    rng = ctx.rng('cli-loop')
+    grid = []
+    for pi, (txt, resf) in enumerate(CLI_PROGRAMS):
+        for imin in (None, 0, 1, 3):
+            for imax in (None, 0, 1, 2, 4):
+                for istop in (None, 'sat', 'unsat', 'unknown'):
+                    stop = {'sat': 'S', 'unsat': 'U', 'unknown': 'K', None: 'S'}[istop]
+                    if imax is None and not any(resf(k) == stop for k in range(max(imin or 0, 1) - 1, 6)):
+                        continue      # would not terminate by the property itself
+                    grid.append((pi, imin, imax, istop))
+    if ctx.quick:
+        keep = [g for g in grid if g[2] == 0 or (g[1] == 3 and g[2] in (None, 4))]
+        grid = keep + rng.sample([g for g in grid if g not in keep], 40)
+    bad, n = [], 0
+    reqs = []
+    for pi, imin, imax, istop in grid:
+        r = {'cmd': 'solve', 'texts': [CLI_PROGRAMS[pi][0]], 'imax': imax, 'count_calls': True, 'default_config': True}
+        if imin is not None:
+            r['imin'] = imin
+        if istop is not None:
+            r['istop'] = istop.upper()
+        reqs.append(r)
+    inproc = ctx.impl().run(reqs, timeout=60)
+    from concurrent.futures import ThreadPoolExecutor
+
+    def cli(args_txt):
+        args, txt = args_txt
+        try:
+            p = subprocess.run(['/venv/bin/python', '-m', 'telingo'] + args, input=txt.encode(), stdout=subprocess.PIPE, stderr=subprocess.PIPE, env=env, cwd='/', timeout=25)
+            pt = subprocess.run(['/venv/bin/python', '-m', 'telingo'] + [a for a in args if a != '--outf=2'], input=txt.encode(), stdout=subprocess.PIPE, stderr=subprocess.PIPE, env=env, cwd='/', timeout=25)
+            return p, pt
+        except subprocess.TimeoutExpired:
+            return None
+    jobs = []
+    for pi, imin, imax, istop in grid:
+        args = ['0', '--outf=2'] + (['--imin=%d' % imin] if imin is not None else []) + (['--imax=%d' % imax] if imax is not None else []) + (['--istop=%s' % istop] if istop else [])
+        jobs.append((args, CLI_PROGRAMS[pi][0]))
+    with ThreadPoolExecutor(8) as ex:
+        outs = list(ex.map(cli, jobs))
+    for (pi, imin, imax, istop), ip, (args, _), o in zip(grid, inproc, jobs, outs):
+        txt, resf = CLI_PROGRAMS[pi]
+        inp = {'cli_program': txt, 'args': args}
+        n += 1
+        if o is None:
+            bad.append({'key': 'c08:cli:%d:%s' % (pi, ' '.join(args)), 'what': 'command line run with %s does not terminate within 25 s' % ' '.join(args), 'input': inp})
+            continue
+        p, pt = o
+        try:
+            js = json.loads(p.stdout.decode(errors='replace'))
+        except ValueError:
+            bad.append({'key': 'c08:cli:%d:%s' % (pi, ' '.join(args)), 'what': 'no JSON output (exit %d): %s' % (p.returncode, p.stderr.decode(errors='replace')[-200:]), 'input': inp})
+            continue
+        nsolve = pt.stdout.decode(errors='replace').count('Solving...')     # the JSON output lists one Call entry even when no solve call is made
+        calls = js.get('Call', [])[:nsolve]
+        if nsolve > len(js.get('Call', [])):
+            calls = js.get('Call', []) + [{}] * (nsolve - len(js.get('Call', [])))
+        got = [sorted(' '.join(sorted(w.get('Value', []))) for w in c.get('Witnesses', [])) for c in calls]
+        if ip.get('status') != 'ok':
+            bad.append({'key': 'c08:cli:%d:%s' % (pi, ' '.join(args)), 'what': 'in-process run fails: %s' % json.dumps({k: ip.get(k) for k in ('status', 'type', 'msg')}), 'input': inp})
+            continue
+        want = [[] for _ in ip['calls']]
+        for step, atoms in ip['models']:
+            if step < len(want):
+                want[step].append(' '.join(sorted(('-' if not pos else '') + nm + ('(%s)' % ','.join(a + [str(t)]) if t is not None else '') for nm, a, t, pos in atoms)))
+        want = [sorted(w) for w in want]
+        L = 8
+        c = {'L': L, 'imin': imin, 'imax': 'absent' if imax is None else imax, 'istop': istop.upper() if istop else None, 'results': ''.join(resf(k) for k in range(L))}
+        v = oracle_violation(c, ('steps', ['S %d' % k for k in range(len(calls))]))
+        if v:
+            bad.append({'key': 'c08:cli:%d:%s' % (pi, ' '.join(args)), 'what': 'command line with %s: %s' % (' '.join(args), v), 'input': inp})
+        elif len(got) != len(want):
+            bad.append({'key': 'c08:cli:%d:%s' % (pi, ' '.join(args)), 'what': 'command line makes %d solve calls, imain with the same options %d' % (len(got), len(want)), 'input': inp})
+        elif got != want:
+            k = next(i for i in range(len(got)) if got[i] != want[i])
+            bad.append({'key': 'c08:cli:%d:%s' % (pi, ' '.join(args)), 'what': 'answer sets of horizon %d differ between the command line (%d) and imain with the same options (%d)' % (k, len(got[k]), len(want[k])), 'input': inp})
+    return n, bad
+
+
 def run(ctx):
     cs = cases(ctx)
     res = run_cases(ctx, cs)
@@ -193,8 +287,10 @@ def run(ctx):
     cex.sort(key=lambda x: (len(x['input']['results']), json.dumps(x['input'], sort_keys=True)))
     nopt, optbad = option_cases(ctx)
     cex += optbad
+    ncli, clibad = cli_loop_cases(ctx)
+    cex += clibad
     distinct = len({json.dumps((c['imin'], c['imax'], c['istop'], c['results'])) for c, _, _, _ in res})
-    cov = {'evaluations': len(res) + nopt, 'distinct_nontrivial': distinct, 'exhaustive': True, 'option_value_cases': nopt,
+    cov = {'evaluations': len(res) + nopt + ncli, 'cli_loop_cases': ncli, 'distinct_nontrivial': distinct, 'exhaustive': True, 'option_value_cases': nopt,
            'rule': 'exhaustive: imin in {absent,0,1,2,3,L,L+2} x imax in {absent,None,0,1,2,3,L+3} x istop in {absent,SAT,UNSAT,UNKNOWN} x all 3^L result '
                    'sequences (L=%d); part list and atom base variant drawn from the seed; every case is distinct; non-trivial = at least one solve call '
                    'is decided by the loop condition (all are)' % cs[0]['L'],
@@ -208,6 +304,9 @@ def replay(ctx, payload):
     c = payload['input']
     if 'option' in c:
         n, bad = option_cases(ctx)
+        return any(b['input'] == c for b in bad)
+    if 'cli_program' in c:
+        n, bad = cli_loop_cases(ctx)
         return any(b['input'] == c for b in bad)
     r = run_cases(ctx, [c])[0]
     return bool(oracle_violation(c, r[1]) or not r[3])
